@@ -8,8 +8,8 @@ import strgen, tempfile
 TRUSTED = [
     "Coq 8.16.1 kernel incl. vm_compute; axioms: none",
     "model C40/Model.v: executable transition function, one event per atomic instruction / slot critical section of string_merging.rs; sequentially consistent interleavings",
-    "tie: event log written while the slot mutex is held (deliver/take) or with the log mutex held across the atomic (load, compare_exchange, fetch_add); POP events are logged after the "
-    "pop and re-positioned in pop order (= group order) by the driver before validation; errors (unterminated strings) are outside the model",
+    "tie: event log written while the slot mutex is held (deliver/take) or with the log mutex held across the operation (load, compare_exchange, fetch_add, queue pop); "
+    "errors (unterminated strings) are outside the model",
     "progress ('never blocks while groups remain') is proved only partially: see level text",
 ]
 IMPORTS = """From Coq Require Import List Bool Arith. Import ListNotations.
@@ -33,7 +33,9 @@ def to_events(lines):
         elif k == 21:
             evs.append(("ESpCas" if a == 0 else f"(EBCas {a - 1})", b >> 1, b & 1))
         elif k == 22:
-            evs.append(("EPop", a, 0))
+            if a > 0:
+                evs.append(("EPop", a, 0))     # logged with the log mutex held across the pop: pops appear in queue order
+            # a == 0: the queue was empty; the model's step is the unreserve that follows (23)
         elif k == 23:
             evs.append(("EPop", 0, 0))
         elif k == 24:
@@ -52,19 +54,7 @@ def to_events(lines):
                 if oldk == 2:
                     evs[-1] = (f"(ETake {bkt})", a, 0)
             # newk == 0 and oldk != 2: a probe that changes nothing: no model event
-    # POP g is logged after the pop itself: restore pop order (group order)
-    out = []
-    for e in evs:
-        if e[0] == "EPop" and e[1] > 0:
-            j = len(out)
-            while j > 0 and out[j - 1][0] == "EPop" and out[j - 1][1] > e[1]:
-                j -= 1
-            # move before any later-numbered POP that was logged earlier
-            idxs = [i for i, x in enumerate(out) if x[0] == "EPop" and x[1] > e[1]]
-            if idxs:
-                out.insert(idxs[0], e)
-                continue
-        out.append(e)
+    out = evs
     return G, cap, out, end
 
 
